@@ -6,6 +6,26 @@ VERIF = Path(__file__).resolve().parent.parent
 ALL = [f"C{i:02d}" for i in range(1, 20)]
 
 CLAIMED = {
+    "C05": dict(
+        text="Seven+1 base patterns exercise every name-inventing mechanism (implicit signal of a port-reference group, unnamed and named "
+             "no-connects, flattened members of internal and nested bundle instances, members of one bundle whose flattened names coincide, "
+             "array elements, Pair members). Designer signals (1/2 bit), instances and bundle instances are named exactly like every name "
+             "elaboration would invent, with 0-2 trailing-underscore variants also taken, in both declaration orders - exhaustive over that "
+             "family. TLC (Trace_Names) requires: raise, or a well-formed package (Package!PkgFaults) that keeps every designer object and "
+             "denotes the design (Design!Denote = Package!PkgDenote; bundle members identified by path, invented instance names compared "
+             "up to trailing underscores).",
+        note="Trusted: relabelling and the underscore-stripping renaming in harness/props/c05.py, builder, projector, TLC. Top-level bundle "
+             "ports colliding with designer ports are not generated.",
+        ref="6 C05", technique="TLA+ denotational oracle (Design/Package/Valid) on adversarially named designs, decided by TLC"),
+    "C10": dict(
+        text="core/Bundles.tla states what a bundle instance flattens to (paths joined with underscores, leaf widths, direction by flip "
+             "parity for port leaves and by role for role-carrying leaves, internal instances -> undirected internal signals). Exhaustive "
+             "single-path cases (depth <= 3 x none/constructor/flipped() per level x six leaf kinds x role relation x port/internal x "
+             "width) and seeded random trees (depth <= 3, fan-out <= 3) are exported; TLC (Trace_Bundle) compares the exported ports and "
+             "signals with Bundles!FlatPorts/FlatSignals. The same trees are connected parent-to-child and the C01 oracle decides that "
+             "both sides agree which flattened port carries which member.",
+        note="Trusted: driver, builder, TLC. Trees are sampled (quick 1500, thorough 15000); single paths are exhaustive.",
+        ref="6 C10", technique="TLA+ functional spec (Bundles) + TLC batch validation; connection agreement via Design/Package denotations"),
     "C04": dict(
         text="core/Build.tla is the state machine of connection operations (connect by call / assignment / connect(), replace, disconnect, "
              "reading a port reference). TLC enumerates every history (MC_Build: 2 scalar + 2 bundle-valued ports, ten connectable kinds as "
